@@ -209,7 +209,7 @@ func CheckC05(run *evid.Run) {
 		x := hx.NewExec(h)
 		shadow := map[string]string{}
 		objShadow := map[iface.IPFSLogEntry]string{} // keeps the objects alive, so no address is ever reused
-		heldMaps := map[heldKey]heldRead{}            // what the read accessors of each replica handed out after the previous step
+		heldMaps := map[heldKey]heldRead{}           // what the read accessors of each replica handed out after the previous step
 		prev := make([]*hx.Obs, h.Replicas)
 		var tr histTrack
 		for k, s := range h.Steps {
